@@ -79,7 +79,7 @@ theorem runFile_printed_eq_followPrinted (O : Oracles) (qy : Query) (q : SelectS
 /-- `FollowFileExecutor::execute` for a statement without join: nothing is read when the limit is already reached
 (LIMIT 0), else every line is fed to the engine with update + result and the answers are printed by the follow
 loop -/
-def followRun (O : Oracles) (qy : Query) (single : Bool) (lines : List Line) : List String :=
+def selectFollowRun (O : Oracles) (qy : Query) (single : Bool) (lines : List Line) : List String :=
   if reachedLimit qy ({} : EngineState) then []
   else followPrinted single (feedLines O qy [] true lines {}).1
 
@@ -90,10 +90,10 @@ def readableFile (lines : List Line) : List FileLine := lines.map (fun l => { re
 executor prints exactly the records of the batch run -/
 theorem followRun_eq_batch (O : Oracles) (qy : Query) (q : SelectStmt) (hq : qy.stmt = .select q) (hj : qy.join = none)
     (lines : List Line) :
-    followRun O qy false lines = (runBatch O qy [] [readableFile lines] none).printed := by
+    selectFollowRun O qy false lines = (runBatch O qy [] [readableFile lines] none).printed := by
   have hidx : joinIndexOf qy [] = .ok [] := by simp [joinIndexOf, hj]
   rw [runBatch_select_out O qy q hq [] _ [] hidx]
-  unfold followRun
+  unfold selectFollowRun
   by_cases h0 : reachedLimit qy ({} : EngineState) = true
   · simp [runFiles, h0]
   · have h0' : reachedLimit qy ({} : LoopState).es = false := by simpa using h0
